@@ -107,7 +107,7 @@ def main():
         tf()
         nfz = 0
         for i, fs_ in enumerate(fspecs):
-            if len(fs_['feats']) > 16:
+            if len(fs_['feats']) > 64:
                 continue
             try:
                 f = fontsynth.build_font(c18.spec_of(fs_))
